@@ -314,6 +314,16 @@ func c13Contracts(c *vx.Ctx) {
 		}
 	}
 	rec(nil)
+	// plus the histories in which EVERY block from the offset on is mined through one contract and
+	// lock byte: rewards of several blocks then arrive together and accumulate into a tranche that an
+	// earlier block opened (two and more updates of one record inside one block)
+	for kind := 1; kind < len(c13CKinds); kind++ {
+		long := make([]int, len(c13CPattern)-c13COffset)
+		for i := range long {
+			long[i] = kind
+		}
+		as = append(as, long)
+	}
 	if c.Shard == 0 {
 		p.States = int64(len(as))
 	}
